@@ -21,6 +21,8 @@
 EXTENDS Univ
 
 CONSTANTS HasBefore, HasAfter, NotFoundToo, MaxErr, Truncate, Replay,
+          LazyParse, \* TRUE: the parser may deliver late: ParsingFinished (and parser errors before it)
+                     \* may come at any point after run-Started, also in the middle of a feature or attempt
           Ambig, \* TRUE: a step may also fail as ambiguous (several definitions match)
           Logs   \* TRUE: a running step or hook may emit one Scenario::Log event (tracing integration)
 
@@ -30,9 +32,10 @@ VARIABLES gpc,    \* "pre" | "feat" | "att" | "post" | "replay" | "end"
           att,    \* current attempt: [s, cur, pc, i, failedR]
           gerr,   \* parser errors emitted
           fails,  \* failure events emitted so far (for Replay)
+          pfin,   \* ParsingFinished was emitted
           ev      \* last emitted event
 
-gvars == <<gpc, fi, plan, att, gerr, fails, ev>>
+gvars == <<gpc, fi, plan, att, gerr, fails, pfin, ev>>
 
 BudgetOf(s) ==
   LET tags == InheritedTags(U, s) IN
@@ -59,6 +62,7 @@ NoAttempt == [s |-> "", cur |-> 0, pc |-> "", i |-> 1, failedR |-> FALSE, lg |->
 
 GInit ==
   /\ gpc = "pre" /\ fi = 0 /\ plan = <<>> /\ att = NoAttempt /\ gerr = 0 /\ fails = <<>>
+  /\ pfin = FALSE
   /\ ev = EvStarted
 
 SEv(k, h, i, err) ==
@@ -72,10 +76,19 @@ Emit(e) == /\ ev' = e
 GPre ==
   /\ gpc = "pre"
   /\ \/ /\ gerr < MaxErr /\ gerr' = gerr + 1 /\ Emit(EvParseErr(gerr + 1))
-        /\ UNCHANGED <<gpc, fi, plan, att>>
-     \/ /\ gpc' = "pre2" /\ Emit(EvParsingFinished) /\ UNCHANGED <<fi, plan, att, gerr>>
+        /\ UNCHANGED <<gpc, fi, plan, att, pfin>>
+     \/ /\ gpc' = "pre2" /\ Emit(EvParsingFinished) /\ pfin' = TRUE /\ UNCHANGED <<fi, plan, att, gerr>>
+     \* a lazy parser: the run starts before parsing is over
+     \/ /\ LazyParse /\ gpc' = "feat" /\ Emit(EvStarted) /\ UNCHANGED <<fi, plan, att, gerr, pfin>>
 GPre2 ==
-  /\ gpc = "pre2" /\ gpc' = "feat" /\ Emit(EvStarted) /\ UNCHANGED <<fi, plan, att, gerr>>
+  /\ gpc = "pre2" /\ gpc' = "feat" /\ Emit(EvStarted) /\ UNCHANGED <<fi, plan, att, gerr, pfin>>
+
+\* late parser items (Normalize forwards them at once, wherever the output stands)
+GLate ==
+  /\ LazyParse /\ ~pfin /\ gpc \in {"feat", "att"}
+  /\ \/ /\ gerr < MaxErr /\ gerr' = gerr + 1 /\ Emit(EvParseErr(gerr + 1)) /\ UNCHANGED pfin
+     \/ /\ pfin' = TRUE /\ Emit(EvParsingFinished) /\ UNCHANGED gerr
+  /\ UNCHANGED <<gpc, fi, plan, att>>
 
 \* between features: open the next one (empty ones are skipped) or finish
 GFeat ==
@@ -88,7 +101,7 @@ GFeat ==
              ELSE /\ plan' = FeatPlan(i) \o <<[k |-> "FeatF", r |-> "", s |-> ""]>>
                   /\ Emit(EvFeatS(U[i].name))
                   /\ UNCHANGED <<gpc, att, gerr>>
-     ELSE /\ gpc' = "post" /\ Emit(EvFinished) /\ UNCHANGED <<fi, plan, att, gerr>>
+     ELSE /\ pfin /\ gpc' = "post" /\ Emit(EvFinished) /\ UNCHANGED <<fi, plan, att, gerr>>
 
 \* consume the next plan item of the open feature
 GItem ==
@@ -162,7 +175,8 @@ GReplay ==
      ELSE /\ gpc' = "end" /\ UNCHANGED <<fi, plan, att, gerr, fails, ev>>
 
 \* every disjunct except the last one emits ev'
-GNext == GPre \/ GPre2 \/ GFeat \/ GItem \/ GAtt \/ GReplay
+GNext == (GPre \/ GPre2 \/ GLate)
+         \/ ((GFeat \/ GItem \/ GAtt \/ GReplay) /\ UNCHANGED pfin)
 GDone == gpc = "end"
 \* did the last step emit an event?  (consecutive events are never equal)
 GEmitted == ev' # ev
